@@ -31,6 +31,9 @@ def configs(tier):
     out.append(("euler", "graph", "on_iteration", 3, 0, "symbolic", False, ((1, "s"), (2, "s"))))
     out.append(("euler", "grid", "on_t_sample", 3, 2, "symbolic", False, ((0, "s"), (2, "s"))))
     out.append(("gillespie", "grid", "no_sampling", 3, 0, "symbolic", False, ((1, "s"), (1, "s"), (3, "s"))))
+    # explicit calls AFTER completion (the run is over within K steps on some paths; the extra iteration and step K+1 come after it)
+    out.append(("euler", "grid", "no_sampling", 3, 0, "symbolic", False, ((2, "s"), (3, "s"), (4, "s"), (4, "s"))))
+    out.append(("tauleap", "graph", "on_t_sample", 3, 1, "symbolic", False, ((3, "s"), (4, "s"))))
     if tier != "quick":
         out.append(("gillespie", "graph", "on_t_sample", 6, 3, "symbolic", False, ()))
         out.append(("euler", "grid", "on_interval", 6, 0, "symbolic", True, ()))
